@@ -102,6 +102,16 @@ fn op_name(op: u64) -> &'static str {
 	OP_NAMES.get(op as usize).copied().unwrap_or("?")
 }
 
+/// Second look at a stalled process (see `vcommon::vcommon::monitor::deadlock_confirmed_in_place`).
+fn confirm_in_place(gdb_file: &str) -> (bool, String) {
+	if gdb_file.is_empty() {
+		return (false, "no thread dump".into());
+	}
+	let txt = std::fs::read_to_string(gdb_file).unwrap_or_default();
+	let progress = || PROGRESS.iter().map(|p| p.load(Ordering::SeqCst)).fold(0u64, |a, b| a.wrapping_add(b));
+	vcommon::monitor::deadlock_confirmed_in_place(&progress, &txt, 20)
+}
+
 fn monitor(run: &Run, hang_s: u64, use_gdb: bool) {
 	let mut last_sum = 0u64;
 	let mut last_change = Instant::now();
@@ -171,7 +181,8 @@ fn monitor(run: &Run, hang_s: u64, use_gdb: bool) {
 				Err(e) => gdb_note = format!("gdb could not be started: {}", e),
 			}
 		}
-		let info = json!({"k": k, "stuck_ops": ops, "no_progress_s": hang_s, "gdb": gdb_note, "gdb_file": gdb_file});
+		let (in_place, seen) = confirm_in_place(&gdb_file);
+		let info = json!({"k": k, "stuck_ops": ops, "no_progress_s": hang_s, "gdb": gdb_note, "gdb_file": gdb_file, "confirmed_in_place": in_place, "confirmation": seen});
 		eprintln!("C17W-HANG {}", info);
 		run.count("hangs_detected", 1);
 		run.extra("hang", info);
@@ -1260,6 +1271,21 @@ fn main() {
 			continue;
 		}
 		let k = h["k"].as_u64().unwrap_or(0);
+		if h["confirmed_in_place"].as_bool() == Some(true) {
+			let mut opsv: Vec<&str> = h["stuck_ops"].as_array().map(|a| a.iter().filter_map(|x| x.as_str()).collect::<Vec<_>>()).unwrap_or_default();
+			opsv.dedup();
+			run.violation(
+				"C17;world=wiring;clause=deadlock",
+				&format!(
+					"no thread made progress for 60 s and the stalled process was a deadlock beyond doubt ({}); threads stuck in: {}; backtraces: {}",
+					h["confirmation"].as_str().unwrap_or("-"),
+					opsv.join("+"),
+					h["gdb_file"].as_str().unwrap_or("-")
+				),
+				json!({"first": h, "reproduce": format!("c17w --tier {} --seed {} --worker 0 1 --n {} --only-run {}", run.tier.name(), run.seed, k + 1, k)}),
+			);
+			continue;
+		}
 		let extra: Vec<String> = vec!["--n".into(), (k + 1).to_string(), "--only-run".into(), k.to_string(), "--deadline".into(), "100000".into()];
 		let again = run.spawn_workers(1, &extra, 600);
 		let h2 = again.get(0).map(|v| v["extras"]["hang"].clone()).unwrap_or(Value::Null);
